@@ -56,6 +56,7 @@ def mc_module():
 EXTENDS Game
 MCConfigs == {[bpg |-> 2, maxp |-> 2, known |-> 2]}
 MCConfigs3 == {[bpg |-> 1, maxp |-> 3, known |-> 1]}
+MCConfigsL == {[bpg |-> 1, maxp |-> 2, known |-> 2]}
 GenConfigs == {%s}
 =============================================================================
 """ % ', '.join(to_tla(cfg_rec(c)) for c in CFGS)
@@ -482,8 +483,9 @@ def run(ctx):
     # 1. the statement holds in the reference model (Deviations = {})
     runs = [('safety', dict(props=SAFETY, ops=3 if ctx.quick else 4, aw=1, games=1 if ctx.quick else 2)),
             ('safety, two games', dict(props=SAFETY, ops=2, aw=1, games=2)),
-            ('safety, 3 players', dict(props=SAFETY, configs='MCConfigs3', pmax=3, ops=3, aw=1)),
-            ('liveness under weak fairness', dict(spec='LiveSpec', props=SAFETY + LIVENESS, ops=2 if ctx.quick else 3, aw=1))]
+            ('safety, 3 players', dict(props=SAFETY, configs='MCConfigs3', pmax=3, ops=2 if ctx.quick else 3, aw=1)),
+            ('liveness under weak fairness', dict(spec='LiveSpec', props=SAFETY + LIVENESS, aw=1,
+                                                  configs='MCConfigsL' if ctx.quick else 'MCConfigs', ops=2 if ctx.quick else 3))]
     for n, (label, kw) in enumerate(runs):
         name = 'MC%d.cfg' % n
         with open(os.path.join(wd, name), 'w') as f:
